@@ -6,7 +6,7 @@ Verdict discipline (DESIGN.md §1):
   FAILED with a failing *property*                                 -> counterexample -> native replay
   timeout / OOM / CBMC error / unwinding-assertion failure / unsatisfied cover -> inconclusive (exit 2)
 """
-import json, os, pathlib, re, shutil, signal, subprocess, sys, time
+import threading, json, os, pathlib, re, shutil, signal, subprocess, sys, time
 
 VERIF = pathlib.Path(__file__).resolve().parent.parent
 REPO = pathlib.Path(os.environ.get('VERIF_REPO', '/repo'))
@@ -123,6 +123,25 @@ def run_kani(scratch: Scratch, harness_filters, jobs, timeout_s, extra=(), logfi
     t0 = time.time()
     p = subprocess.Popen(cmd, cwd=scratch.tree, env=kani_env(), text=True,
                          stdout=subprocess.PIPE, stderr=subprocess.STDOUT, start_new_session=True)
+    # memory watchdog: a runaway CBMC ends as "out of memory" = inconclusive for its own harness instead
+    # of pushing the machine into the kernel's OOM killer (which picks any victim, e.g. a healthy run)
+    mem_kb = int(os.environ.get('VERIF_MEM_GB', '14')) << 20
+    stop = threading.Event()
+    def _watch():
+        while not stop.wait(5):
+            try:
+                ps = subprocess.run(['ps', '-eo', 'pid,sid,rss,comm'], text=True, capture_output=True).stdout
+            except Exception:
+                continue
+            for ln in ps.splitlines()[1:]:
+                f = ln.split(None, 3)
+                if len(f) == 4 and f[1] == str(p.pid) and f[3].strip() == 'cbmc' and int(f[2]) > mem_kb:
+                    try:
+                        os.kill(int(f[0]), signal.SIGKILL)
+                    except ProcessLookupError:
+                        pass
+    th = threading.Thread(target=_watch, daemon=True)
+    th.start()
     try:
         out, _ = p.communicate()
     except BaseException:
@@ -131,6 +150,7 @@ def run_kani(scratch: Scratch, harness_filters, jobs, timeout_s, extra=(), logfi
         except ProcessLookupError:
             pass
         raise
+    stop.set()
     if logfile:
         pathlib.Path(logfile).write_text(out)
     return p.returncode, out, time.time() - t0
